@@ -53,15 +53,15 @@ theorem specCount_add_below (S : List (Key × VH)) : ∀ (rem : Nat) (q : Path),
 /-- the slots of the page that a scan from `q` over `rem` layers can reach (every position on the way is internal) hold the
 specified nodes -/
 def FaithfulFrom (S : List (Key × VH)) (pg : Page Node) (q : Path) (rem : Nat) : Prop :=
-  ∀ r, q <+: r → r.length < q.length + rem →
+  ∀ r, q <+: r → r.length < q.length + rem → r.length ≤ 256 →
     (∀ x, q <+: x → x <+: r → x ≠ r → 2 ≤ (sub S x).length) →
     pg.nodes.getD (specIndex r) H.term = specNode H S r
 
 theorem faithfulFrom_child (S : List (Key × VH)) (pg : Page Node) (q : Path) (rem : Nat) (b : Bool)
     (h : FaithfulFrom H S pg q (rem + 1)) (h2 : 2 ≤ (sub S q).length) : FaithfulFrom H S pg (q ++ [b]) rem := by
-  intro r hpre hlen hanc
+  intro r hpre hlen h256 hanc
   have hq : q <+: r := List.IsPrefix.trans (List.prefix_append _ _) hpre
-  apply h r hq (by simp at hlen; omega)
+  apply h r hq (by simp at hlen; omega) h256
   intro x hqx hxr hne
   by_cases hx : x = q
   · rw [hx]; exact h2
@@ -82,7 +82,7 @@ theorem faithfulFrom_child (S : List (Key × VH)) (pg : Page Node) (q : Path) (r
 
 /-- **`count_leaves` (one half of the page)**: the scan from the slot of `q` counts the specified leaves -/
 theorem countFrom_spec (hs : H.Sound) {S : List (Key × VH)} (hk : KeysOK S) (pg : Page Node) :
-    ∀ (rem : Nat) (q : Path), q ≠ [] → specR q.length + rem ≤ 7 → q.length + rem ≤ 257 →
+    ∀ (rem : Nat) (q : Path), q ≠ [] → specR q.length + rem ≤ 7 → q.length ≤ 256 →
       FaithfulFrom H S pg q rem → countFrom H pg rem (specIndex q) = specCountIn S rem q := by
   intro rem
   induction rem with
@@ -90,9 +90,9 @@ theorem countFrom_spec (hs : H.Sound) {S : List (Key × VH)} (hk : KeysOK S) (pg
   | succ rem ih =>
     intro q hq hlay hlen hf
     have hnode : pg.nodes.getD (specIndex q) H.term = specNode H S q :=
-      hf q (List.prefix_refl _) (by omega)
+      hf q (List.prefix_refl _) (by omega) hlen
         (fun x h1 h2 hne => absurd (h2.eq_of_length (Nat.le_antisymm h2.length_le h1.length_le)) hne)
-    have hq256 : q.length ≤ 256 := by omega
+    have hq256 : q.length ≤ 256 := hlen
     have hkind := kind_specNode H hs hk q hq256
     have hsub := sub_of_kind H hs hk q hq256
     have hcf : countFrom H pg (rem + 1) (specIndex q) =
@@ -121,6 +121,7 @@ theorem countFrom_spec (hs : H.Sound) {S : List (Key × VH)} (hk : KeysOK S) (pg
         have e0 : 2 * specIndex q + 2 = specIndex (q ++ [false]) := by rw [specIndex_snoc q false h6]; rfl
         have e1 : 2 * specIndex q + 3 = specIndex (q ++ [true]) := by rw [specIndex_snoc q true h6]; rfl
         rw [e0, e1]
+        have hq255 : q.length < 256 := lt_of_two_le_sub hk q hq256 h2
         rw [ih (q ++ [false]) (by simp) (hlayc false) (by simp; omega) (faithfulFrom_child H S pg q rem false hf h2),
           ih (q ++ [true]) (by simp) (hlayc true) (by simp; omega) (faithfulFrom_child H S pg q rem true hf h2)]
       · have hni : ¬ (H.kind (specNode H S q) = .internal ∧ rem ≠ 0) := fun h => hr h.2
@@ -146,7 +147,7 @@ theorem countFrom_spec (hs : H.Sound) {S : List (Key × VH)} (hk : KeysOK S) (pg
 of leaves of the trie of `S` that lie in the page, and together with the keys that lie in child pages these are all keys below
 the page -/
 theorem countLeaves_spec (hs : H.Sound) {S : List (Key × VH)} (hk : KeysOK S) (pg : Page Node) (pre : Path)
-    (h6 : pre.length % 6 = 0) (hlen : pre.length + 6 ≤ 256)
+    (h6 : pre.length % 6 = 0) (hlen : pre.length < 256)
     (hf0 : FaithfulFrom H S pg (pre ++ [false]) 6) (hf1 : FaithfulFrom H S pg (pre ++ [true]) 6) :
     countLeaves H pg = specCountIn S 6 (pre ++ [false]) + specCountIn S 6 (pre ++ [true]) ∧
     countLeaves H pg + (specBelow S 6 (pre ++ [false]) + specBelow S 6 (pre ++ [true])) = (sub S pre).length := by
